@@ -118,7 +118,14 @@ where
         distinct.insert(hash_sx(&c.input));
       }
       for v in c.direct_violations {
-        direct.push(serde_json::json!({"k": k, "what": v}));
+        // "[class=N] text": a direct violation of a known class
+        let mut class: Option<u64> = None;
+        if let Some(rest) = v.strip_prefix("[class=") {
+          if let Some(end) = rest.find(']') {
+            class = rest[..end].parse().ok();
+          }
+        }
+        direct.push(serde_json::json!({"k": k, "what": v, "class": class}));
       }
     }
   }
